@@ -47,7 +47,7 @@ v('c03-no-boundary-init', 'C03', 'C05-R9', 'src/algo/algo.go', "\t\tHleft[0] = 0
 # ---- C06
 v('c06r1-no-advance', 'C06', 'C06-R1', 'src/reader.go', "\t\tbuf := slab[:n]\n\t\tslab = slab[n:]\n", "\t\tbuf := slab[:n]\n")
 v('c06r2-no-tail-copy', 'C06', 'C06-R2', 'src/chunklist.go', "\t\tif tail > 0 && cnt > 1 {\n\t\t\tnewChunk := *ret[0]\n\t\t\tret[0] = &newChunk\n\t\t}\n", "")
-v('c06r3-header-consumes-ordinal', 'C06', 'C06-R3', 'src/core.go', "\t\t\tif len(header) < opts.HeaderLines {\n\t\t\t\theader = append(header, byteString(data))\n\t\t\t\teventBox.Set(EvtHeader, header)\n\t\t\t\treturn false\n\t\t\t}", "\t\t\tif len(header) < opts.HeaderLines {\n\t\t\t\theader = append(header, byteString(data))\n\t\t\t\teventBox.Set(EvtHeader, header)\n\t\t\t\titemIndex++\n\t\t\t\treturn false\n\t\t\t}")
+v('c06r3-header-consumes-ordinal', 'C06', 'C06-R3', 'src/core.go', "\t\t\tif len(header) < opts.HeaderLines {\n\t\t\t\theader = append(header, byteString(data))\n\t\t\t\theaderUpdated = true\n\t\t\t\treturn false\n\t\t\t}", "\t\t\tif len(header) < opts.HeaderLines {\n\t\t\t\theader = append(header, byteString(data))\n\t\t\t\theaderUpdated = true\n\t\t\t\titemIndex++\n\t\t\t\treturn false\n\t\t\t}")
 # ---- C07
 v('c07r2-queue-first', 'C07', 'C07-R2', 'src/terminal.go', "\tif t.printQuery {\n\t\tt.printer(string(t.input))\n\t}\n\tif len(t.expect) > 0 {\n\t\tt.printer(t.pressed)\n\t}\n\tfor _, s := range t.printQueue {\n\t\tt.printer(s)\n\t}\n", "\tfor _, s := range t.printQueue {\n\t\tt.printer(s)\n\t}\n\tif t.printQuery {\n\t\tt.printer(string(t.input))\n\t}\n\tif len(t.expect) > 0 {\n\t\tt.printer(t.pressed)\n\t}\n")
 v('c07r3-quit-code', 'C07', 'C07-R3', 'src/terminal.go', "exit(func() int { return ExitInterrupt })", "exit(func() int { return ExitError })")
